@@ -502,7 +502,7 @@ class Agg:
         for k, v in other.inconclusive.items():
             self.inconclusive[k] = self.inconclusive.get(k, 0) + v
         for s in other.samples:
-            if len(self.samples) < 12:
+            if len(self.samples) < 400:
                 self.samples.append(s)
         self.violations.extend(other.violations)
         return self
@@ -563,6 +563,17 @@ def finish(prop, tier, seed, agg, rule, t0, level="exploration", assumptions=(),
         print("  detail:", d[:1200])
         status = 1
     inconc_total = sum(agg.inconclusive.values())
+    # pick samples of as many different shapes (legs) as possible
+    by_shape = {}
+    for smp in agg.samples:
+        shape = tuple(sorted(smp.keys())) + (smp.get("leg"), smp.get("family")) if isinstance(smp, dict) else ("?",)
+        by_shape.setdefault(shape, []).append(smp)
+    picked = []
+    while len(picked) < 12 and any(by_shape.values()):
+        for shape in list(by_shape):
+            if by_shape[shape] and len(picked) < 12:
+                picked.append(by_shape[shape].pop(0))
+    agg.samples = picked
     coverage = {
         "evaluations": agg.evaluations,
         "distinct_nontrivial": len(agg.nontrivial),
